@@ -104,7 +104,7 @@ def coq_cases(cases, run):
                 'Require Import MV.Types.Infer MV.Types.InferCheck.',
                 'Definition cases : list case := [', ';\n'.join(sh), '].',
                 'Eval vm_compute in failing cases.']
-        return vlib.coq_eval('C19', 'cases_%d' % i, '\n'.join(body), timeout=600)
+        return vlib.coq_eval('C19', 'cases_%d' % i, '\n'.join(body), timeout=300)
 
     with ThreadPoolExecutor(max_workers=8) as ex:
         results = list(ex.map(one, enumerate(shards)))
@@ -194,7 +194,7 @@ def check(run):
                 known[f['cause']] += 1
                 run.violation(describe(f), {}, classify=f['cause'])
             else:
-                unexplained.append((describe(f), src, vecs, f))
+                unexplained.append((describe(f), src, vecs, dict(f, resolver_declines=dec[1] if dec else [])))
         if stats['programs'] % 37 == 1:
             run.sample({'program': src, 'argument_vectors': vecs, 'stream': stream,
                         'resolver_declines': dec[1] if dec else [],
@@ -286,7 +286,9 @@ def replay(path):
         print(json.dumps(doc, indent=1))
         return 0
     vecs = rp.get('argument_vectors') or '[[1, 1, 2]]'
-    r = one_program(src, ast.literal_eval(vecs) if isinstance(vecs, str) else vecs)
+    kinds = (rp.get('failure') or {}).get('resolver_declines') or []
+    r = one_program(src, ast.literal_eval(vecs) if isinstance(vecs, str) else vecs,
+                    decline=(lambda kind: kind in kinds) if kinds else None)
     print(src)
     if r['diverged']:
         print('type inference did not reach a fixed point')
